@@ -2,7 +2,7 @@
    (history kinds whose observables are compared exactly). *)
 From Coq Require Import List NArith ZArith QArith Bool Lia Permutation.
 From RareV Require Import Base.Hex Base.Num Base.Res Model.Agg Model.Welford Corr.C07Case
-  Proofs.AggMap Proofs.AggCounter Proofs.AggTable Proofs.AggSubkey Proofs.AggAccum.
+  Proofs.AggMap Proofs.AggCounter Proofs.AggTable Proofs.AggSubkey Proofs.AggAccum Proofs.AggLawDefs Proofs.AggLaw.
 Import ListNotations.
 
 Lemma scan_prefixes {S X} (f : S -> X -> S) h : forall s, scan f h s = map (fun p => fold_left f p s) (prefixes h).
@@ -29,7 +29,7 @@ Proof.
   rewrite list_eqb_refl; [reflexivity|]. intros x _. rewrite bytes_eqb_refl, Z.eqb_refl, Zl_eqb_refl. reflexivity.
 Qed.
 
-Definition exact_obs (o : obs) : Prop := match o with ONm _ | OTrim _ _ => False | _ => True end.
+Definition exact_obs (o : obs) : Prop := match o with ONm _ => False | _ => True end.
 Lemma obs_eqb_refl o : exact_obs o -> obs_eqb o o = true.
 Proof.
   destruct o; cbn; intros H; try contradiction.
@@ -43,14 +43,14 @@ Proof. intros H. apply list_eqb_refl. intros o Ho. apply obs_eqb_refl, H, Ho. Qe
 
 Definition exact_kind (i : cin) : Prop :=
   match i with
-  | ITrim _ _ _ _ | INum _ _ _ _ => False
+  | INum _ _ _ _ => False
   | IPerm _ h1 h2 => Permutation h1 h2
   | _ => True
   end.
 
 Theorem check_sound_proof : forall i, exact_kind i -> check i (model i) = true.
 Proof.
-  intros [h|h|d h|f d h p|bad d h|k r ps h|k h1 h2] G; cbn [exact_kind] in G; try contradiction; cbn [check model].
+  intros [h|h|d h|d h p h2 p2|bad d h|k r ps h|k h1 h2] G; cbn [exact_kind] in G; try contradiction; cbn [check model].
   - rewrite scan_prefixes, map_map.
     rewrite (map_ext (fun p => oC (spec_counter p)) (fun p => oC (fold_left c_sample p c0))).
     + apply oeqb_refl. intros o Ho. apply in_map_iff in Ho as (p & <- & _). unfold oC. cbn. exact I.
@@ -63,6 +63,8 @@ Proof.
     rewrite (map_ext (fun p => oT (spec_table d p)) (fun p => oT (fold_left (t_sample d) p t0))).
     + apply oeqb_refl. intros o Ho. apply in_map_iff in Ho as (p & <- & _). exact I.
     + intros p. rewrite <- table_fold_proof. reflexivity.
+  - change t0 with (rebuild [] 0%N). rewrite (scan_opm d _ [] 0%N cs_ok_nil), skipn_map, map_map.
+    apply oeqb_refl. intros o Ho. apply in_map_iff in Ho as (st & <- & _). exact I.
   - rewrite scan_prefixes, map_map.
     rewrite (map_ext (fun p => oA (spec_accum expr (eval_expr bad) d p)) (fun p => oA (fold_left (a_sample expr (eval_expr bad) d) p []))).
     + apply oeqb_refl. intros o Ho. apply in_map_iff in Ho as (p & <- & _). exact I.
